@@ -4,8 +4,8 @@
 (*                                                                          *)
 (* A table is a sequence of rows [id, p, o, x] (id = position in the input, *)
 (* p = PARTITION BY key, o = ORDER BY key, x = argument).  A partition is   *)
-(* ordered by (o ASC NULLS LAST [, id]) or its exact reverse (DESC NULLS    *)
-(* FIRST).  `total` = TRUE means ORDER BY o, id (no ties: every row is its  *)
+(* ordered by o ASC|DESC with NULLS FIRST|LAST [, then id in the same      *)
+(* direction].  `total` = TRUE means ORDER BY o, id (no ties: every row is its  *)
 (* own peer group); FALSE means ORDER BY o (rows with equal o are peers).   *)
 (* A frame is [units, s, e] with bounds [k, n], k in UP | P | C | F | UF    *)
 (* (UNBOUNDED PRECEDING, n PRECEDING, CURRENT ROW, n FOLLOWING, UNBOUNDED   *)
@@ -27,12 +27,16 @@ LegalFrame(f) == f.s.k # "UF" /\ f.e.k # "UP" /\ BPos(f.s) <= BPos(f.e)
 \* partitions and their order
 PartVals(tbl) == {tbl[i].p : i \in 1..Len(tbl)}
 PartRows(tbl, pv) == SelectSeq(tbl, LAMBDA r : r.p = pv)
-RowLe(a, b) == OrdKey(a.o) < OrdKey(b.o) \/ (OrdKey(a.o) = OrdKey(b.o) /\ a.id <= b.id)
-RECURSIVE InsertRowW(_, _), SortPart(_)
-InsertRowW(r, s) == IF s = <<>> THEN <<r>> ELSE IF RowLe(r, Head(s)) THEN <<r>> \o s ELSE <<Head(s)>> \o InsertRowW(r, Tail(s))
-SortPart(s) == IF s = <<>> THEN <<>> ELSE InsertRowW(Head(s), SortPart(Tail(s)))
-Rev(s) == [i \in 1..Len(s) |-> s[Len(s) + 1 - i]]
-Ordered(rows, desc) == IF desc THEN Rev(SortPart(rows)) ELSE SortPart(rows)
+\* ORDER BY o {ASC|DESC} NULLS {FIRST|LAST} [, id {ASC|DESC}]: `desc` = descending, `nf` = NULLS FIRST.
+\* (id breaks ties in the same direction; under ORDER BY o alone it only fixes a canonical order of the peers.)
+WKey(v, desc, nf) == IF IsNull(v) THEN (IF nf THEN -1000000 ELSE 1000000) ELSE (IF desc THEN -v.v ELSE v.v)
+RowLe(a, b, desc, nf) == WKey(a.o, desc, nf) < WKey(b.o, desc, nf)
+                         \/ (WKey(a.o, desc, nf) = WKey(b.o, desc, nf) /\ (IF desc THEN a.id >= b.id ELSE a.id <= b.id))
+RECURSIVE InsertRowW(_, _, _, _), SortPart(_, _, _)
+InsertRowW(r, s, desc, nf) == IF s = <<>> THEN <<r>> ELSE IF RowLe(r, Head(s), desc, nf) THEN <<r>> \o s
+                              ELSE <<Head(s)>> \o InsertRowW(r, Tail(s), desc, nf)
+SortPart(s, desc, nf) == IF s = <<>> THEN <<>> ELSE InsertRowW(Head(s), SortPart(Tail(s), desc, nf), desc, nf)
+Ordered(rows, desc, nf) == SortPart(rows, desc, nf)
 
 \* peers
 Peer(s, i, j, total) == IF total THEN i = j ELSE s[i].o = s[j].o
@@ -80,7 +84,8 @@ FrameOf(s, i, f, total, desc) ==
 FrameFns(s, i, f, total, desc) == LET fr == FrameOf(s, i, f, total, desc) IN
   [ sum |-> Sum(fr), count |-> Count(fr), count_star |-> I(Len(fr)), avg |-> Avg(fr), min |-> Min(fr), max |-> Max(fr),
     first_value |-> FirstValue(fr), last_value |-> LastValue(fr), nth_value_2 |-> NthValue(fr, 2),
-    first_value_in |-> FirstValueIN(fr), last_value_in |-> LastValueIN(fr), nth_value_2_in |-> NthValue(NonNull(fr), 2) ]
+    first_value_in |-> FirstValueIN(fr), last_value_in |-> LastValueIN(fr), nth_value_2_in |-> NthValue(NonNull(fr), 2),
+    nth_value_m1 |-> NthValue(fr, -1), nth_value_m2 |-> NthValue(fr, -2) ]
 
 \* functions of the position in the partition
 Rank(s, i, total) == FirstPeer(s, i, total)
@@ -103,8 +108,8 @@ TotalFns(s, i) ==
     lead_0 |-> Lead(s, i, 0, Null), lead_1 |-> Lead(s, i, 1, Null), lead_2 |-> Lead(s, i, 2, Null), lead_2_d |-> Lead(s, i, 2, I(7)) ]
 
 \* results for a whole table: a sequence of <<id, record>> over all partitions
-OverTable(tbl, desc, Fn(_, _)) ==
+OverTable(tbl, desc, nf, Fn(_, _)) ==
   LET pvs == SetAsSeq(PartVals(tbl)) IN
   Flatten([k \in 1..Len(pvs) |->
-     LET s == Ordered(PartRows(tbl, pvs[k]), desc) IN [i \in 1..Len(s) |-> [id |-> s[i].id, r |-> Fn(s, i)]]])
+     LET s == Ordered(PartRows(tbl, pvs[k]), desc, nf) IN [i \in 1..Len(s) |-> [id |-> s[i].id, r |-> Fn(s, i)]]])
 =============================================================================
